@@ -441,7 +441,11 @@ class PrefetchedCourierServer(CourierServer):
     result = []
     try:
       batch_size = lazy_fns.maybe_make(batch_size)
-      result = self._generator.get_batch(batch_size, block=True)
+      # Elements dequeued before the generator's exception is met are kept:
+      # they are returned in the same batch, followed by the exception.
+      result = self._generator.get_batch(
+          batch_size, block=True, keep_partial=True
+      )
     except Exception:  # pylint: disable=broad-exception-caught
       # The sequence of the result will always end with an exception.
       # Any non-StopIteration means the generator crashed. The exception
@@ -452,7 +456,9 @@ class PrefetchedCourierServer(CourierServer):
     if not self._generator:
       if (e := self._generator.exception) is not None:
         if self._shutdown_requested:
+          # A worker that is shutting down only answers with the timeout.
           e = TimeoutError('Shutdown requested, cannot get next batch.')
+          result = []
         logging.exception(
             'chainable: %s',
             f'Exception during next batch call: {type(e)}: {e}',
